@@ -138,7 +138,7 @@ class Program:
                     pty = fn.sig[i + 5:j]
                     mm = re.search(r'\{closure@[^}]*\}', pty)
                     if mm and not pty.startswith('std::pin::Pin'):
-                        self.closure_index.setdefault(mm.group(0), name)
+                        self.closure_index.setdefault(mm.group(0), []).append(name)
                     elif pty.startswith('std::pin::Pin'):
                         # coroutine: key by the span of the return place
                         for raw in fn.raw or []:
@@ -158,6 +158,7 @@ class Program:
                     body, _ = _balanced(txt_nc, m.end() - 1)
                     names, discr, vfields = [], [], {}
                     for item in _split_items(body):
+                        if _cfg_disabled(item): continue
                         item = re.sub(r'#\[[^\]]*\]', '', item).strip()
                         mm = re.match(r'(\w+)', item)
                         if not mm: continue
@@ -191,6 +192,7 @@ class Program:
                     body, _ = _balanced(txt_nc, m.end() - 1)
                     fields = []
                     for item in _split_items(body):
+                        if _cfg_disabled(item): continue
                         item = re.sub(r'#\[[^\]]*\]', '', item).strip()
                         mm = re.match(r'(?:pub(?:\([^)]*\))?\s+)?(\w+)\s*:', item)
                         if mm: fields.append(mm.group(1))
@@ -238,8 +240,15 @@ class Program:
                 return r[0]
         return None
 
-    def fn_of_closure(self, ident):
-        return self.closure_index.get(ident)
+    def fn_of_closure(self, ident, creator=None):
+        c = self.closure_index.get(ident)
+        if not c: return None
+        if len(c) == 1 or creator is None: return c[0]
+        best = [n for n in c if n.startswith(creator + '::{closure#')]
+        if best: return best[0]
+        # closures created inside closures of the creator
+        best = [n for n in c if n.startswith(creator.split('::{closure#')[0])]
+        return best[0] if best else c[0]
 
     def fn_of_coroutine(self, ident, creator):
         m = re.match(r'\{coroutine@(.*?)( \(#\d+\))?\}$', ident)
@@ -263,6 +272,16 @@ class Program:
 
     def struct_field(self, struct, fname):
         return self.structs[struct].index(fname)
+
+def _cfg_disabled(item):
+    """item carries a #[cfg(...)] that is off in the default-feature build the MIR is dumped from"""
+    for m in re.finditer(r'#\[cfg\((.*?)\)\]', item, re.S):
+        c = m.group(1).strip()
+        if c.startswith('not('): continue
+        if c.startswith('any(') or c.startswith('all(') or c.startswith('feature'):
+            if 'feature' in c and 'not(' not in c: return True
+        if c == 'test': return True
+    return False
 
 def _strip_impl_generics(txt):
     txt = txt.strip()
@@ -638,7 +657,9 @@ class Machine:
         if s.startswith('ZeroSized: '):
             t = s[11:]
             if t.startswith('{closure@'):
-                return Closure(t, [])
+                c = Closure(t, [])
+                c.creator = fr.fn.name if fr is not None else None
+                return c
             if t.startswith(('fn(', 'for<')) or ' {' in t:
                 mm = re.search(r'\{(.*)\}$', t)
                 return FnItem(mm.group(1) if mm else t)
@@ -700,6 +721,15 @@ class Machine:
                 return Adt(en, vi, [])
         if self.prog.resolve_crate_fn(s):
             return FnItem(s)
+        # item nested in a function that the use site names through its impl type: Type::method::{closure#0}::NAME
+        for k in range(len(parts) - 1, 0, -1):
+            r = self.prog.resolve_crate_fn('::'.join(parts[:k]))
+            if r:
+                cand = r + '::' + '::'.join(parts[k:])
+                f = self.prog.fns.get(cand)
+                if f is not None:
+                    if f.kind == 'fn': return FnItem(cand)
+                    return deep_copy(self.static_cell(cand).v)
         return None
 
     # rvalues ------------------------------------------------------------------------------------
@@ -741,7 +771,9 @@ class Machine:
         if k == 'adt':
             return self.mk_adt(rv[1], [self.operand(o, fr) for o in rv[2]])
         if k == 'closure':
-            return Closure(rv[1], [self.operand(o, fr) for o in rv[2]])
+            c = Closure(rv[1], [self.operand(o, fr) for o in rv[2]])
+            c.creator = fr.fn.name
+            return c
         if k == 'coroutine':
             body = self.prog.fn_of_coroutine(rv[1], fr.fn.name)
             if body is None: raise EncoderGap('coroutine body for ' + rv[1])
@@ -767,6 +799,12 @@ class Machine:
             p2 = p2[1:j] if j + 1 >= len(p2) else p2[1:j] + p2[j + 1:]
         parts = _split_path(p2)
         last = parts[-1]
+        if '__tokio_select_util' in path and len(parts) >= 2 and parts[-2] == 'Out':
+            if last == 'Disabled':
+                k = path.find('Out::<')
+                n = len(split_top(path[k + 6:find_top(path, k + 6, '>')])) if k >= 0 else 0
+                return Adt('Out', n, fields)
+            return Adt('Out', int(last[1:]), fields)
         if len(parts) >= 2:
             en = type_head(parts[-2])
             vi = self.prog.variant_index(en, last)
@@ -1191,6 +1229,20 @@ class Machine:
                     raise EncoderGap('reached unwind resume in ' + name)
                 else:
                     raise EncoderGap('terminator ' + t)
+        except (Panic, Infeasible, EncoderGap, BoundExceeded, PathAbort):
+            raise
+        except RecursionError:
+            raise
+        except Exception as e:
+            import traceback
+            tb = traceback.extract_tb(e.__traceback__)[-1]
+            cur = None
+            try:
+                stmts, term = blocks[bb]
+                cur = term if 'st' not in dir() else None
+            except Exception:
+                pass
+            raise EncoderGap(f'interpreter error {type(e).__name__}: {e} [{tb.filename.split("/")[-1]}:{tb.lineno}] in {name} bb{bb}: {str(blocks.get(bb))[:400]}')
         finally:
             self.depth -= 1
             self.stack.pop()
@@ -1274,7 +1326,7 @@ class Machine:
     def call_value_ref(self, ref, clo, args):
         if isinstance(clo, FnItem):
             return self.call(clo.path, list(args), None, '')
-        name = self.prog.fn_of_closure(clo.ident)
+        name = self.prog.fn_of_closure(clo.ident, getattr(clo, 'creator', None))
         if name is None:
             raise EncoderGap('closure body for ' + clo.ident)
         fn = self.prog.fns[name]
